@@ -417,7 +417,7 @@ func vScenarioC11(rc *runCtx) {
 		}
 	}
 	c11kinds := []string{"silent-up", "silent-down", "silent-both", "close-up", "close-down", "break-up", "break-down", "disk-write", "disk-short-write", "src-read-error", "src-shrink", "stall-client", "stall-server"}
-	kind := append(c11kinds, "src-shrink-at-name")[tp.Draw("c11.kind", 14)]
+	kind := append(c11kinds, "src-shrink-at-name", "client-stop-delete")[tp.Draw("c11.kind", 15)]
 	if rc.param("slowdisk", "") == "1" {
 		kind = "disk-slow-then-full"
 	}
@@ -605,6 +605,18 @@ func vScenarioC11(rc *runCtx) {
 				}
 			}
 		}
+	case "client-stop-delete":
+		// the embedding program stops the transfer and asks for deletion, whether or not this side has anything
+		// of its own to delete: it ends at once, and it tells its peer
+		h := func(l *verifsim.Link, dd []byte) []byte {
+			if fire() {
+				mark()
+				w.Go("api", x.client, func() { x.filter.StopTransferringFiles(true) })
+			}
+			return dd
+		}
+		wrap(up, h)
+		wrap(down, h)
 	case "src-shrink-at-name":
 		// the file is cut behind the sender's back right when its name goes out: before anything of it was read,
 		// in the resume (prefix hash) phase when the destination holds an older version
@@ -730,7 +742,14 @@ func vScenarioC11(rc *runCtx) {
 	serverSpoke := vFindMsg(rep.serverMsgs, "fail", "FAIL") != nil
 	clientSpoke := vFindMsg(rep.clientMsgs, "fail", "FAIL") != nil
 	clientExit := vFindMsg(rep.clientMsgs, "EXIT") != nil
-	if !rep.clientOK && !clientSpoke && !clientExit && !brokeUp && !serverSpoke && x.sawClientBusy {
+	// (the peer's message excuses a side only if it was written before that side ended)
+	serverSpokeFirst := serverSpoke
+	if serverSpoke && x.clientDoneAt > 0 {
+		if at := vFirstFailAt(x.downLast(), x.markDown); at >= 0 && at > x.clientDoneAt {
+			serverSpokeFirst = false
+		}
+	}
+	if !rep.clientOK && !clientSpoke && !clientExit && !brokeUp && !serverSpokeFirst && x.sawClientBusy {
 		rc.violate("silent-failure", "C11:client-silent:"+kind, "%s: the client ended without success and without telling the server why (no fail/FAIL/EXIT line written, none received)", kind)
 		return
 	}
@@ -774,4 +793,19 @@ func sortStrings(s []string) {
 			}
 		}
 	}
+}
+
+// vFirstFailAt: when the first fail line was written to l (from offset mark on), or -1.
+func vFirstFailAt(l *verifsim.Link, mark int) time.Duration {
+	sent, _, evs := l.Snapshot()
+	for _, e := range evs {
+		if e.Off < mark || e.Off+e.N > len(sent) {
+			continue
+		}
+		c := sent[e.Off : e.Off+e.N]
+		if bytes.Contains(c, []byte("#fail:")) || bytes.Contains(c, []byte("#FAIL:")) {
+			return e.T
+		}
+	}
+	return -1
 }
